@@ -6,6 +6,10 @@ mod c36;
 fn main() {
     let args: Vec<String> = std::env::args().skip(1).collect();
     let id = args.first().cloned().unwrap_or_default();
+    if id == "fst-info" {
+        c36::fst_info(&args[1]);
+        return;
+    }
     if id == "probe" {
         // vc-eval probe FILE.veryl — analyse a hand-written module and print every evaluated const
         let src = std::fs::read_to_string(&args[1]).expect("read");
